@@ -179,9 +179,48 @@ def check_from_operands(ctx):
                 asserted = ev.try_eval(n.test.comparators[0], fo.module)
         if asserted is not None:
             ctx.check("C17.O", f"{fo.name}:arity", asserted == len(ops), f"{fo.name}.from_operands asserts {asserted} operands, the class declares {len(ops)}", fo.loc(fn), trivial=True)
+        # value preservation: what reaches the constructor is the parsed operand itself, at most wrapped as Immediate(<same value>)
+        def origin(e):
+            """the operand expression `e` denotes unchanged (a local bound to an operand, operands[i]), else None"""
+            if isinstance(e, ast.Name):
+                return e.id if e.id in pos else None
+            if isinstance(e, ast.Subscript) and isinstance(e.value, ast.Name) and e.value.id == pname:
+                i_ = ev.try_eval(e.slice, fo.module)
+                return f"{pname}[{i_}]" if isinstance(i_, int) else None
+            if isinstance(e, ast.Call) and dotted(e.func).split(".")[-1] == "Immediate":
+                args = list(e.args) + [k.value for k in e.keywords if k.arg == "value"]
+                return origin(args[0]) if len(args) == 1 and len(e.keywords) + len(e.args) == 1 else None
+            if isinstance(e, ast.IfExp):
+                a_, b_ = origin(e.body), origin(e.orelse)
+                return a_ if a_ is not None and a_ == b_ else None
+            return None
+
+        rewritten = []
+        for n in A.body_nodes(fn):
+            if isinstance(n, (ast.Assign, ast.AugAssign, ast.AnnAssign)):
+                tgts = n.targets if isinstance(n, ast.Assign) else [n.target]
+                for t in tgts:
+                    for x in ast.walk(t):
+                        if isinstance(x, ast.Name) and x.id in pos:
+                            v_ = n.value
+                            if isinstance(n, ast.AugAssign):
+                                rewritten.append((x.id, src(n)))
+                            elif isinstance(t, ast.Tuple) and isinstance(v_, ast.Name) and v_.id == pname:
+                                pass  # the unpacking itself
+                            elif isinstance(t, ast.Name) and v_ is not None and origin(v_) in (x.id, f"{pname}[{pos[x.id]}]"):
+                                pass  # re-binding to the same operand, possibly wrapped
+                            else:
+                                rewritten.append((x.id, src(n)))
+        ctx.check("C17.O", f"{fo.name}:operands-reach-the-constructor-unchanged", not rewritten,
+                  f"{fo.name}.from_operands rewrites a parsed operand before constructing the instruction ({'; '.join(w for _, w in rewritten)[:200]}): "
+                  "the printer and the binary decoder keep the original operands, so the printed text of such an instruction parses back to a different one", fo.loc(fn),
+                  sample={"shape": fo.name, "locals": sorted(pos)})
         for i, a in enumerate(ops):
             real = repo.property_alias(c, a) or a
             v = kw.get(real)
+            if v is not None and origin(v) is None:
+                ctx.check("C17.O", f"{fo.name}.{real}:constructor-argument-is-the-operand", False,
+                          f"{fo.name}.from_operands passes `{src(v)}` for {real}, which is not the parsed operand (or Immediate(<it>))", fo.loc(fn))
             got = None
             if isinstance(v, ast.Name):
                 got = pos.get(v.id)
@@ -346,6 +385,11 @@ def run(ctx):
 B = "netqasm/lang/instr/base.py"
 OP = "netqasm/lang/operand.py"
 SEEDS = [
+    dict(id="c17-rotation-numerator-reduced", file="netqasm/lang/instr/core.py", expect="C17.O", construct="operands-reach-the-constructor-unchanged",
+         old="        return cls(reg=reg, imm0=imm0, imm1=imm1)  # type: ignore",
+         new="        if isinstance(imm0, Immediate) and isinstance(imm1, Immediate):\n            imm0 = Immediate(value=imm0.value % 2 ** (imm1.value + 1))\n        return cls(reg=reg, imm0=imm0, imm1=imm1)  # type: ignore"),
+    dict(id="c17-rotation-ctor-arg-masked", file="netqasm/lang/instr/core.py", expect="C17.O", construct="constructor-argument-is-the-operand",
+         old="        return cls(reg=reg, imm0=imm0, imm1=imm1)  # type: ignore", new="        return cls(reg=reg, imm0=imm0, imm1=Immediate(value=imm1.value & 0x7F))  # type: ignore"),
     dict(id="c17-print-swapped", file=B, expect="C17.P", construct="RegEntryInstruction", old='return f"{self.mnemonic} {str(self.reg)} {str(self.entry)}"', new='return f"{self.mnemonic} {str(self.entry)} {str(self.reg)}"'),
     dict(id="c17-print-comma", file=B, expect="C17.P", construct="RegRegInstruction", old='return f"{self.mnemonic} {str(self.reg0)} {str(self.reg1)}"', new='return f"{self.mnemonic} {str(self.reg0)}, {str(self.reg1)}"'),
     dict(id="c17-print-missing", file=B, expect="C17.P", construct="RegRegImm4Instruction", old='            f"{str(self.imm1)} {str(self.imm2)} {str(self.imm3)}"', new='            f"{str(self.imm1)} {str(self.imm2)}"'),
